@@ -813,6 +813,36 @@ def n_recv( ctx ):
         else:
             res.bad( src, ( looped or rcv or [ fn ] )[0], '%s receives from the connection %s' % ( name, 'in a loop' if looped else '%d times' % len( rcv )),
                      'select announced one readable event: a further receive in the same call blocks or fails, and the failure is reported as EOF - the octets already received are dropped and a complete request is not acted upon ( depends on where the stream was cut: a message of exactly the block size )' )
+    # a datagram is received whole or its remainder is lost: what recvfrom asks for is at least the largest UDP payload ( 65507 ), and so is what
+    # the client asks of a CONNECTED datagram socket ( client.recvfrom -> network.recv ): cut at 4096 octets, a request or reply that was
+    # delivered completely is never acted upon ( "Incomplete UDP request" ) although the same frame over TCP is
+    rf = src.get( 'recvfrom' )
+    dflt = dict( zip( [ a.arg for a in reversed( rf.args.args ) ], reversed( rf.args.defaults )))
+    size = try_fold( dflt.get( rf.args.args[1].arg ), default=None ) if len( rf.args.args ) > 1 else None
+    if isinstance( size, int ) and size >= 65507:
+        res.ok( src, rf, 'recvfrom asks for a whole datagram ( %d octets )' % size )
+    else:
+        res.bad( src, rf, 'network.recvfrom receives at most %r octets of a datagram' % size, 'the remainder of a larger datagram is discarded by the socket layer: a Write Tag Fragmented of 1100 DINTs in one datagram gets no reply, the tag stays unchanged - the same frame over TCP is served' )
+    csrc = ctx.src( CLIENT )
+    crf = csrc.get( 'client.recvfrom' )
+    for c_ in [ c for c in ast.walk( crf ) if isinstance( c, ast.Call ) and call_name( c ) in ( 'network.recv', 'recv' ) ]:
+        kw = { k.arg: k.value for k in c_.keywords if k.arg }
+        star = [ k.value for k in c_.keywords if k.arg is None ]
+        val = None
+        try:
+            if 'maxlen' in kw:
+                val = fold( kw['maxlen'], { 'self.udp': True } )
+            for s_ in star:
+                d_ = fold( s_, { 'self.udp': True, 'dict': dict } )
+                if isinstance( d_, dict ) and 'maxlen' in d_:
+                    val = d_['maxlen']
+        except NoFold as exc:
+            raise AnalysisError( 'client.recvfrom: block size outside the modelled subset: %s' % exc )
+        if isinstance( val, int ) and val >= 65507:
+            res.ok( csrc, c_, 'client.recvfrom asks a connected UDP socket for a whole datagram ( %d octets )' % val )
+        else:
+            res.bad( csrc, c_, 'client.recvfrom reads at most %s octets of a reply datagram from a connected UDP socket' % ( val if val is not None else 'network.recv\'s default ( 4096 )' ),
+                     'a reply of more than 4096 octets, sent as one datagram, is cut: the client raises "Incomplete UDP response" where the same request over TCP succeeds' )
     rd = src.get( 'readable' )
     RM = Matcher()
     sel = RM.find( rd, '( _r, _w, _x ) = select.select( [ args[0].fileno() ], [], [], _rem )' )
@@ -1953,4 +1983,58 @@ def p_params( ctx ):
     else:
         res.bad( src, walked[1], 'poll.execute walks `%s` %d times as it was given' % ( P, len( walked )),
                  'a generator of parameters is consumed by both walks at once: half the parameters are read, and each is reported with the value of ANOTHER parameter - no error is raised' )
+    return res
+
+
+@rule( 'K-TARGETS', props=( 'C12', ), floor=2 )
+def k_targets( ctx ):
+    """proxy.is_request admits every spelling of a read / write target its callers document - a text, ( address, type ), ( address, type, units ),
+    lists as well as tuples, the type None ( "to force Tag I/O" ) - and nothing else; read_details completes a two-element target of either
+    sequence kind with the missing units: both decided by value."""
+    from .fold import run_block, Raises
+    res = Result( 'K-TARGETS' )
+    src = ctx.src( GETATTR )
+    fn = src.get( 'proxy.is_request' )
+    REQ = fn.args.args[-1].arg
+    body = [ st for st in fn.body if not ( isinstance( st, ast.Expr ) and isinstance( st.value, ast.Constant )) ]
+    cells = (( 'Tag', True ), (( 'Tag', 'INT' ), True ), (( 'Tag', 'INT', 'kWh' ), True ), ( [ '@0x99/1/1', 'INT' ], True ), (( 'Tag', None ), True ),
+              (( 'Tag', None, 'kWh' ), True ), (( 'Tag', ( 'INT', 'REAL' )), True ), (( 'Tag', 5 ), False ), (( 5, 'INT' ), False ), (( 'Tag', ), False ), ( 7, False ))
+    wrong = []
+    for req, want in cells:
+        env = { REQ: req, 'type_str_base': str, 'isinstance': isinstance, 'type': type, 'is_listlike': lambda x: isinstance( x, ( list, tuple )), 'all': all, 'len': len }
+        try:
+            out = run_block( body, env, ignore_calls=( 'log', ))
+        except NoFold as exc:
+            raise AnalysisError( 'proxy.is_request: not a decision fragment: %s' % exc )
+        got = bool( out.value ) if out.kind == 'return' else False
+        res.cells += 1
+        if got != want:
+            wrong.append(( req, got, want ))
+    if wrong:
+        res.bad( src, fn, 'proxy.is_request( %r ) is %s, specified %s ( %d of %d targets differ )' % ( wrong[0] + ( len( wrong ), len( cells ))),
+                 'read_details documents that the type of a target "may be None, to force Tag I/O": refused, a documented spelling of an operation fails with "Not a valid read/write target" while the equivalent text form works' )
+    else:
+        res.ok( src, fn, 'proxy.is_request admits the documented target spellings, the type None included, and nothing else ( %d targets )' % len( cells ))
+    rd = src.get( 'proxy.read_details' )
+    fill = [ a for a in ast.walk( rd ) if isinstance( a, ast.Assign ) and isinstance( a.targets[0], ast.Tuple ) and len( a.targets[0].elts ) == 3 and isinstance( a.value, ast.IfExp )
+             and 'len' in names_in( a.value.test ) ]
+    if not fill:
+        raise AnalysisError( 'proxy.read_details: the completion of a two-element target not found' )
+    A = sorted( n for n in names_in( fill[0].value.test ) if n != 'len' )
+    bad_ = None
+    for a_ in ( ( 'x', 'INT' ), [ 'x', 'INT' ], ( 'x', 'INT', 'u' ), [ 'x', None ] ):
+        try:
+            got = tuple( fold( fill[0].value, { A[0]: a_, 'len': len, 'tuple': tuple, 'list': list } ))
+        except Raises as exc:
+            got = 'raises %s' % exc
+        except NoFold as exc:
+            raise AnalysisError( 'proxy.read_details: completion of a target outside the modelled subset: %s' % exc )
+        res.cells += 1
+        want = tuple( a_ ) + ( None, ) * ( 3 - len( a_ ))
+        if got != want and bad_ is None:
+            bad_ = ( a_, got, want )
+    if bad_:
+        res.bad( src, fill[0], 'proxy.read_details completes the target %r to %r, specified %r' % bad_, 'a two-element LIST passes is_request and then fails with TypeError: the tuple form of the same target works' )
+    else:
+        res.ok( src, fill[0], 'a two-element target, tuple or list, is completed with units None' )
     return res
